@@ -429,7 +429,10 @@ def under_bufsize(suite, size, n=8):
         env = dict(getattr(suite, "env", None) or {}, DISSECT_STREAM_BUFFER_SIZE=str(size))
 
         def generate(self, rng, tier):
-            return base.generate(self, rng, tier)[: (3 * n if tier == "thorough" else n)]
+            # (the stream contract of a reader is stated for buffer sizes that are multiples of ITS sector size: a 4096-byte
+            # sector VHDX under a 1536-byte buffer is outside it, DESIGN.md §6 C08)
+            cs = [c for c in base.generate(self, rng, tier) if size % int(c.get("sector_size") or 512) == 0]
+            return cs[: (3 * n if tier == "thorough" else n)]
     inst = Buffered.__new__(Buffered)
     inst.__dict__.update(suite.__dict__)
     return inst
